@@ -5,6 +5,7 @@ from .. import prov
 from ..prov import norm, show, P, F_, C, ok_outcomes
 from ..streamrules import rule_cache_protocol, rule_io_protocol, rule_load_before_get
 
+REQUIRES = ("std",)
 LEVEL = "other"
 EXPLANATION = (
     "Observational equivalence over all inputs x all accessor histories x all legal Read+Seek behaviours is a behavioural relation and is NOT decided. "
@@ -130,6 +131,47 @@ def outcomes(F, q, probes=None):
     return fn, out
 
 
+def guard_atoms(F, an, st):
+    """canonical, parser-independent guard facts of an outcome: which tables exist, which searches found something, header-field tests"""
+    atoms = set()
+    for f in st.facts:
+        if f[0] == "var":
+            x = an.simp(f[1], st.facts)
+            nx = norm(x)
+            for nm_ in ("shdrs", "phdrs"):
+                if nx == F_(P(1), nm_):
+                    atoms.add(("has", nm_, f[2] == "Some"))
+            c = canon(F, ("payload", nx, "Some"))
+            if isinstance(c, tuple) and c and c[0] == "FIRST":
+                atoms.add(("found",) + c[1:] + (f[2] == "Some",))
+        elif f[0] in ("true", "false"):
+            n = norm(an.simp(f[1], st.facts))
+            for nm_ in ("shdrs", "phdrs"):
+                if n == ("call", "vec::Vec::is_empty", (F_(P(1), nm_),)):
+                    atoms.add(("has", nm_, f[0] == "false"))
+        elif f[0] in ("eq", "ne") and isinstance(f[2], int):
+            n = norm(an.simp(f[1], st.facts))
+            if n[0] == "fld" and n[1] == F_(P(1), "ehdr"):
+                atoms.add(("hdr", n[2], f[0], f[2]))
+    return frozenset(atoms)
+
+
+def guarded_outcomes(F, q, subst=None):
+    fn = F.fn(q)
+    if fn is None:
+        return None, None
+    an = analyze_fn(F, fn)
+    out = set()
+    for v, st in ok_outcomes(an):
+        c = canon(F, norm(v))
+        g = guard_atoms(F, an, st)
+        if subst:
+            c = _subst(c, *subst)
+            g = frozenset(_subst(a, *subst) for a in g)
+        out.add((tuple(sorted(map(repr, g))), repr(c)))
+    return fn, out
+
+
 def section_probes(F):
     sh = F.adts["section::SectionHeader"]["variants"][0]["fields"]
     fi = {fd["name"]: ("f", i, fd["name"]) for i, fd in enumerate(sh)}
@@ -190,6 +232,11 @@ def run(ctx, rep):
     tf, to = outcomes(F, "elf_stream::ElfStream::dynamic")
     if so is not None and to is not None:
         n += 1
+        _, gso = guarded_outcomes(F, "elf_bytes::ElfBytes::dynamic")
+        _, gto = guarded_outcomes(F, "elf_stream::ElfStream::dynamic")
+        rep.require(gso == gto, "sibling", "dynamic:guards", wh(tf["span"]), "each outcome is reached under the same table-present / section-found conditions",
+                    "dynamic() reaches its outcomes under different conditions: only slice %s / only stream %s"
+                    % ([x[0] for x in sorted(gso - gto)][:3], [x[0] for x in sorted(gto - gso)][:3]))
         rep.require(sorted(set(map(repr, so))) == sorted(set(map(repr, to))), "sibling", "dynamic", wh(tf["span"]),
                     "first SHT_DYNAMIC section's bytes, else (no section headers) first PT_DYNAMIC segment's file bytes",
                     "dynamic() differ: slice %s / stream %s" % ([show(x)[:260] for x in so], [show(x)[:260] for x in to]))
@@ -204,6 +251,11 @@ def run(ctx, rep):
             continue
         n += 1
         inst = [_subst(x, ("p", 2), ("c", K)) for x in to]
+        _, gso = guarded_outcomes(F, "elf_bytes::ElfBytes::" + sm)
+        _, gto = guarded_outcomes(F, "elf_stream::ElfStream::get_symbol_table_of_type", (("p", 2), ("c", K)))
+        rep.require(gso == gto, "sibling", sm + ":guards", wh(sf["span"]), "same table-present / section-found conditions per outcome",
+                    "%s reaches its outcomes under different conditions: only slice %s / only stream %s"
+                    % (sm, [x[0] for x in sorted(gso - gto)][:3], [x[0] for x in sorted(gto - gso)][:3]))
         rep.require(sorted(set(map(repr, so))) == sorted(set(map(repr, inst))), "sibling", sm, wh(sf["span"]),
                     "first %s section's bytes + the bytes of SHDR_AT(its sh_link)" % cname,
                     "%s differ: slice %s / stream(%s) %s" % (sm, [show(x)[:260] for x in so], cname, [show(x)[:260] for x in inst]))
